@@ -515,4 +515,280 @@ Proof.
   destruct (af_children_ok f H stk nx s) as [cs' [nx' [E1 _]]]. rewrite E1. reflexivity.
 Qed.
 
+(* ------------------------------------------------------------------ *)
+(* the node set of F is exactly the set characterisation [kept]         *)
+Definition has_stop (l : list nat) : bool := existsb (fun n => is_stop (v n)) l.
+
+Lemma has_stop_app a b : has_stop (a ++ b) = has_stop a || has_stop b.
+Proof. apply existsb_app. Qed.
+
+Lemma before_stop_app a b :
+  before_stop v (a ++ b) = if has_stop a then before_stop v a else a ++ before_stop v b.
+Proof.
+  induction a as [|x a IH]; [reflexivity|].
+  cbn [app before_stop]. unfold has_stop. cbn [existsb]. fold (has_stop a).
+  destruct (is_stop (v x)); cbn [orb]; [reflexivity|].
+  rewrite IH. destruct (has_stop a); reflexivity.
+Qed.
+
+Lemma before_stop_incl l : incl (before_stop v l) l.
+Proof.
+  induction l as [|x l IH]; cbn [before_stop]; [intros a Ha; exact Ha|].
+  destruct (is_stop (v x)); [intros a []|].
+  intros a [Ha|Ha]; [left; exact Ha|right; apply IH, Ha].
+Qed.
+
+Lemma before_stop_nostop a : has_stop a = false -> before_stop v a = a.
+Proof.
+  induction a as [|x a IH]; [reflexivity|]. unfold has_stop. cbn [existsb before_stop]. fold (has_stop a).
+  destruct (is_stop (v x)); cbn [orb]; [discriminate|]. intros H. rewrite (IH H). reflexivity.
+Qed.
+
+Lemma reach_t_unfold id i ch : reach_t v (T id i ch) = id :: (if opens (v id) then reach v ch else []).
+Proof. reflexivity. Qed.
+
+Lemma reach_cons x xs : reach v (x :: xs) = reach_t v x ++ reach v xs.
+Proof. reflexivity. Qed.
+
+Lemma reach_single x : reach v [x] = reach_t v x.
+Proof. unfold reach. cbn [flat_map]. apply app_nil_r. Qed.
+
+Lemma pre_f_single x : pre_f [x] = pre x.
+Proof. cbn [flat_map]. apply app_nil_r. Qed.
+
+Lemma ids_cons' x xs : ids (x :: xs) = ids_t x ++ ids xs.
+Proof. rewrite ids_cons, ids_t_unfold. reflexivity. Qed.
+
+Lemma reach_f_incl_of l : Forall (fun t => incl (reach_t v t) (ids_t t)) l -> incl (reach v l) (ids l).
+Proof.
+  induction 1 as [|x l Hx _ IH]; [intros a Ha; exact Ha|].
+  rewrite reach_cons, ids_cons'. intros a Ha. apply in_or_app. apply in_app_or in Ha.
+  destruct Ha as [Ha|Ha]; [left; apply Hx, Ha|right; apply IH, Ha].
+Qed.
+
+Lemma reach_t_incl : forall t, incl (reach_t v t) (ids_t t).
+Proof.
+  induction t as [id i ch IH] using rt_ind'. rewrite reach_t_unfold, ids_t_unfold. cbn [rid rch].
+  intros a [Ha|Ha]; [left; exact Ha|right].
+  destruct (opens (v id)); [|destruct Ha]. apply (reach_f_incl_of ch IH), Ha.
+Qed.
+
+Lemma reach_incl l : incl (reach v l) (ids l).
+Proof. apply reach_f_incl_of. apply Forall_forall. intros t _. apply reach_t_incl. Qed.
+
+Lemma visited_incl l : incl (visited v l) (ids l).
+Proof. intros a Ha. apply reach_incl, before_stop_incl, Ha. Qed.
+
+(* the stop flag of F: a stop answer among the reached nodes *)
+Definition stop_ok (t : rt) : Prop := forall s, snd (F_t v s t) = s || has_stop (reach_t v t).
+
+Lemma F_f_stop_of l : Forall stop_ok l -> forall s, snd (F_f v s l) = s || has_stop (reach v l).
+Proof.
+  induction 1 as [|x l Hx _ IH]; intros s; [cbn; rewrite orb_false_r; reflexivity|].
+  rewrite F_f_cons. cbn [snd]. rewrite IH, Hx, reach_cons, has_stop_app, orb_assoc. reflexivity.
+Qed.
+
+Lemma F_t_stop : forall t, stop_ok t.
+Proof.
+  induction t as [id i ch IH] using rt_ind'. intros s. rewrite F_t_unfold, reach_t_unfold.
+  destruct s; [reflexivity|]. cbv zeta. pose proof (F_f_stop_of ch IH false) as Hk. cbn [orb] in *.
+  unfold has_stop. cbn [existsb]. fold (has_stop (if opens (v id) then reach v ch else [])).
+  destruct (v id); cbn [snd is_stop opens orb]; try reflexivity; exact Hk.
+Qed.
+
+Lemma F_f_stop s l : snd (F_f v s l) = s || has_stop (reach v l).
+Proof. apply F_f_stop_of. apply Forall_forall. intros t _. apply F_t_stop. Qed.
+
+Lemma desc_closed l p t : In p (pre_f l) -> In t (pre_f (rch p)) -> In t (pre_f l).
+Proof.
+  intros Hp Ht. destruct (pre_f_segment l p Hp) as [a [b E]]. rewrite E.
+  apply in_or_app. right. apply in_or_app. left. rewrite pre_unfold. right. exact Ht.
+Qed.
+
+Lemma disj_ids x xs m : NoDup (ids (x :: xs)) -> In m (ids_t x) -> In m (ids xs) -> False.
+Proof. rewrite ids_cons'. intros ND H1 H2. exact (NoDup_app_disj _ _ m ND H1 H2). Qed.
+
+Lemma in_ids_t t x : In t (pre x) -> In (rid t) (ids_t x).
+Proof. intros H. unfold ids_t. apply in_map. exact H. Qed.
+
+Lemma in_ids t l : In t (pre_f l) -> In (rid t) (ids l).
+Proof. intros H. unfold ids. apply in_map. exact H. Qed.
+
+Lemma kept_cons x xs n : NoDup (ids (x :: xs)) ->
+  (kept v (x :: xs) n <-> kept v [x] n \/ (has_stop (reach_t v x) = false /\ kept v xs n)).
+Proof.
+  intros ND. unfold kept, visited. split.
+  - intros [t [Ht [Hv [Ha Hr]]]]. cbn [flat_map] in Ht. apply in_app_or in Ht.
+    rewrite reach_cons, before_stop_app in Hv. destruct Ht as [Ht|Ht].
+    + left. exists t. rewrite pre_f_single, reach_single. refine (conj Ht (conj _ (conj Ha _))).
+      * destruct (has_stop (reach_t v x)) eqn:Es; [exact Hv|].
+        apply in_app_or in Hv. destruct Hv as [Hv|Hv]; [rewrite (before_stop_nostop _ Es); exact Hv|].
+        exfalso. apply (disj_ids x xs (rid t) ND); [apply in_ids_t, Ht|apply visited_incl, Hv].
+      * destruct Hr as [Hr|[[p [Hp [Hpn Htp]]]|Hr]]; [left; exact Hr| |right; right; exact Hr].
+        right; left. exists p. refine (conj _ (conj Hpn Htp)).
+        cbn [flat_map] in Hp. apply in_app_or in Hp. destruct Hp as [Hp|Hp]; [exact Hp|].
+        exfalso. apply (disj_ids x xs (rid t) ND); [apply in_ids_t, Ht|].
+        apply in_ids. exact (desc_closed xs p t Hp Htp).
+    + right. destruct (has_stop (reach_t v x)) eqn:Es.
+      { exfalso. apply (disj_ids x xs (rid t) ND); [apply reach_t_incl, before_stop_incl, Hv|apply in_ids, Ht]. }
+      split; [reflexivity|]. apply in_app_or in Hv. destruct Hv as [Hv|Hv].
+      { exfalso. apply (disj_ids x xs (rid t) ND); [apply reach_t_incl, Hv|apply in_ids, Ht]. }
+      exists t. refine (conj Ht (conj Hv (conj Ha _))).
+      destruct Hr as [Hr|[[p [Hp [Hpn Htp]]]|Hr]]; [left; exact Hr| |right; right; exact Hr].
+      right; left. exists p. refine (conj _ (conj Hpn Htp)).
+      cbn [flat_map] in Hp. apply in_app_or in Hp. destruct Hp as [Hp|Hp]; [|exact Hp].
+      exfalso. apply (disj_ids x xs (rid t) ND); [|apply in_ids, Ht].
+      apply in_ids_t. rewrite <- pre_f_single. apply (desc_closed [x] p t); [rewrite pre_f_single; exact Hp|exact Htp].
+  - intros [[t [Ht [Hv [Ha Hr]]]]|[Es [t [Ht [Hv [Ha Hr]]]]]].
+    + rewrite pre_f_single in Ht. rewrite reach_single in Hv. exists t.
+      refine (conj _ (conj _ (conj Ha _))).
+      * cbn [flat_map]. apply in_or_app. left. exact Ht.
+      * rewrite reach_cons, before_stop_app. destruct (has_stop (reach_t v x)) eqn:Es; [exact Hv|].
+        apply in_or_app. left. apply (before_stop_incl _ _ Hv).
+      * destruct Hr as [Hr|[[p [Hp [Hpn Htp]]]|Hr]]; [left; exact Hr| |right; right; exact Hr].
+        right; left. exists p. refine (conj _ (conj Hpn Htp)).
+        rewrite pre_f_single in Hp. cbn [flat_map]. apply in_or_app. left. exact Hp.
+    + exists t. refine (conj _ (conj _ (conj Ha _))).
+      * cbn [flat_map]. apply in_or_app. right. exact Ht.
+      * rewrite reach_cons, before_stop_app, Es. apply in_or_app. right. exact Hv.
+      * destruct Hr as [Hr|[[p [Hp [Hpn Htp]]]|Hr]]; [left; exact Hr| |right; right; exact Hr].
+        right; left. exists p. refine (conj _ (conj Hpn Htp)).
+        cbn [flat_map]. apply in_or_app. right. exact Hp.
+Qed.
+
+Lemma accepts_not_stop x : accepts x = true -> is_stop x = false.
+Proof. destruct x; cbn; congruence. Qed.
+
+Lemma opens_not_stop x : opens x = true -> is_stop x = false.
+Proof. destruct x; cbn; congruence. Qed.
+
+Lemma kept_node id i ch n : NoDup (id :: ids ch) ->
+  (kept v [T id i ch] n <->
+     (accepts (v id) = true /\ (n = id \/ (v id = VSelect /\ In n (ids ch))))
+     \/ (opens (v id) = true /\ (kept v ch n \/ (n = id /\ exists m, kept v ch m)))).
+Proof.
+  intros ND. inversion ND as [|? ? Hnot NDc]; subst.
+  assert (N1 : forall t, In t (pre_f ch) -> rid t <> id).
+  { intros t Ht E. apply Hnot. rewrite <- E. apply in_ids, Ht. }
+  assert (N2 : forall p, In p (pre (T id i ch)) -> ~ In (T id i ch) (pre_f (rch p))).
+  { intros p Hp Hin. rewrite pre_unfold in Hp. cbn [rch] in Hp. destruct Hp as [<-|Hp].
+    - cbn [rch] in Hin. exact (N1 _ Hin eq_refl).
+    - exact (N1 _ (desc_closed ch p _ Hp Hin) eq_refl). }
+  unfold kept, visited. rewrite pre_f_single, reach_single, reach_t_unfold. split.
+  - intros [t [Ht [Hv [Ha Hr]]]]. rewrite pre_unfold in Ht. cbn [rch] in Ht. destruct Ht as [<-|Ht].
+    + cbn [rid rch] in *. left. split; [exact Ha|].
+      destruct Hr as [Hr|[[p [Hp [Hpn Htp]]]|Hr]]; [left; exact Hr| |right; exact Hr].
+      exfalso. exact (N2 p Hp Htp).
+    + right. cbn [before_stop] in Hv. destruct (is_stop (v id)); [destruct Hv|].
+      destruct Hv as [Hv|Hv]; [exfalso; exact (N1 t Ht (eq_sym Hv))|].
+      destruct (opens (v id)); [|destruct Hv]. split; [reflexivity|].
+      assert (Kt : forall m, (m = rid t \/ (exists p, In p (pre_f ch) /\ rid p = m /\ In t (pre_f (rch p)))
+                              \/ (v (rid t) = VSelect /\ In m (ids (rch t)))) ->
+                   exists t0, In t0 (pre_f ch) /\ In (rid t0) (before_stop v (reach v ch)) /\ accepts (v (rid t0)) = true /\
+                     (m = rid t0 \/ (exists p, In p (pre_f ch) /\ rid p = m /\ In t0 (pre_f (rch p)))
+                      \/ (v (rid t0) = VSelect /\ In m (ids (rch t0))))).
+      { intros m Hm. exists t. exact (conj Ht (conj Hv (conj Ha Hm))). }
+      destruct Hr as [Hr|[[p [Hp [Hpn Htp]]]|Hr]].
+      * left. apply Kt. left. exact Hr.
+      * rewrite pre_unfold in Hp. cbn [rch] in Hp. destruct Hp as [<-|Hp].
+        { right. cbn [rid] in Hpn. split; [symmetry; exact Hpn|]. exists (rid t). apply Kt. left. reflexivity. }
+        { left. apply Kt. right; left. exists p. exact (conj Hp (conj Hpn Htp)). }
+      * left. apply Kt. right; right. exact Hr.
+  - intros [[Ha Hn]|[Ho Hk]].
+    + exists (T id i ch). cbn [rid rch]. refine (conj _ (conj _ (conj Ha _))).
+      * rewrite pre_unfold. left. reflexivity.
+      * cbn [before_stop]. rewrite (accepts_not_stop _ Ha). left. reflexivity.
+      * destruct Hn as [Hn|Hn]; [left; exact Hn|right; right; exact Hn].
+    + rewrite Ho. cbn [before_stop]. rewrite (opens_not_stop _ Ho).
+      assert (Up : forall m, (exists t0, In t0 (pre_f ch) /\ In (rid t0) (before_stop v (reach v ch)) /\ accepts (v (rid t0)) = true /\
+                     (m = rid t0 \/ (exists p, In p (pre_f ch) /\ rid p = m /\ In t0 (pre_f (rch p)))
+                      \/ (v (rid t0) = VSelect /\ In m (ids (rch t0))))) ->
+                exists t0, In t0 (pre (T id i ch)) /\ In (rid t0) (id :: before_stop v (reach v ch)) /\ accepts (v (rid t0)) = true /\
+                     (m = rid t0 \/ (exists p, In p (pre (T id i ch)) /\ rid p = m /\ In t0 (pre_f (rch p)))
+                      \/ (v (rid t0) = VSelect /\ In m (ids (rch t0))))).
+      { intros m [t [Ht [Hv [Ha Hr]]]]. exists t. rewrite pre_unfold. cbn [rch].
+        refine (conj (or_intror Ht) (conj (or_intror Hv) (conj Ha _))).
+        destruct Hr as [Hr|[[p [Hp [Hpn Htp]]]|Hr]]; [left; exact Hr| |right; right; exact Hr].
+        right; left. exists p. exact (conj (or_intror Hp) (conj Hpn Htp)). }
+      destruct Hk as [Hk|[Hn [m [t [Ht [Hv [Ha _]]]]]]]; [apply Up, Hk|].
+      exists t. rewrite pre_unfold. cbn [rch].
+      refine (conj (or_intror Ht) (conj (or_intror Hv) (conj Ha _))).
+      right; left. exists (T id i ch). cbn [rid rch].
+      exact (conj (or_introl eq_refl) (conj (eq_sym Hn) Ht)).
+Qed.
+
+Definition KP (l : forest) : Prop := forall n, In n (ids (fst (F_f v false l))) <-> kept v l n.
+
+Lemma ids_ocons o r : ids (ocons o r) = ids (ocons o []) ++ ids r.
+Proof. destruct o as [t|]; cbn [ocons]; [|reflexivity]. rewrite !ids_cons'. rewrite ids_nil, app_nil_r. reflexivity. Qed.
+
+Lemma KP_cons x xs : NoDup (ids (x :: xs)) -> KP [x] -> KP xs -> KP (x :: xs).
+Proof.
+  intros ND H1 H2 n. rewrite (kept_cons x xs n ND), <- (H1 n), <- (H2 n).
+  rewrite !F_f_cons. cbn [fst]. rewrite (ids_ocons _ (fst (F_f v (snd (F_t v false x)) xs))).
+  rewrite in_app_iff. rewrite F_t_stop. cbn [orb F_f fst].
+  destruct (has_stop (reach_t v x)).
+  - rewrite F_f_true. cbn [fst]. rewrite ids_nil. split; [intros [H|[]]; left; exact H|].
+    intros [H|[H _]]; [left; exact H|discriminate H].
+  - split; [intros [H|H]; [left; exact H|right; split; [reflexivity|exact H]]|].
+    intros [H|[_ H]]; [left; exact H|right; exact H].
+Qed.
+
+Lemma KP_node id i ch : NoDup (id :: ids ch) -> KP ch -> KP [T id i ch].
+Proof.
+  intros ND Hc n. rewrite (kept_node id i ch n ND). rewrite F_f_cons, F_t_unfold. cbv zeta. cbn [F_f fst].
+  assert (Hex : (exists m, kept v ch m) <-> fst (F_f v false ch) <> []).
+  { split.
+    - intros [m Hm] E. apply Hc in Hm. rewrite E in Hm. exact Hm.
+    - intros Hne. destruct (fst (F_f v false ch)) as [|y ys] eqn:E; [contradiction|].
+      exists (rid y). apply Hc. rewrite E, ids_cons. left. reflexivity. }
+  destruct (v id) eqn:Ev; cbn [fst ocons accepts opens].
+  - (* True *) rewrite ids_cons', ids_nil, app_nil_r, ids_t_unfold. cbn [rid rch In]. rewrite (Hc n).
+    split.
+    + intros [H|H]; [left; split; [reflexivity|left; symmetry; exact H]|right; split; [reflexivity|left; exact H]].
+    + intros [[_ [H|[H _]]]|[_ [H|[H _]]]]; try discriminate H; [left; symmetry; exact H|right; exact H|left; symmetry; exact H].
+  - (* False *) destruct (fst (F_f v false ch)) as [|y ys] eqn:E; cbn [is_nil ocons].
+    + rewrite ids_nil. split; [intros []|].
+      intros [[H _]|[_ [H|[_ H]]]]; [discriminate H| |].
+      * apply Hc in H. rewrite E in H. exact H.
+      * apply Hex in H. apply H. reflexivity.
+
+    + rewrite ids_cons', ids_nil, app_nil_r, ids_t_unfold. cbn [rid rch In]. rewrite <- E, (Hc n).
+      split.
+      * intros [H|H]; right; (split; [reflexivity|]); [right; split; [symmetry; exact H|]|left; exact H].
+        apply Hex. discriminate.
+      * intros [[H _]|[_ [H|[H _]]]]; [discriminate H|right; exact H|left; symmetry; exact H].
+  - (* Skip *) rewrite ids_nil. split; [intros []|]. intros [[H _]|[H _]]; discriminate H.
+  - (* keep self *) rewrite ids_cons', ids_nil, app_nil_r, ids_t_unfold. cbn [rid rch ids flat_map map In app].
+    split.
+    + intros [H|[]]. left; split; [reflexivity|left; symmetry; exact H].
+    + intros [[_ [H|[H _]]]|[H _]]; try discriminate H. left; symmetry; exact H.
+  - (* Select *) rewrite ids_cons', ids_nil, app_nil_r, ids_t_unfold. cbn [rid rch In].
+    split.
+    + intros [H|H]; left; (split; [reflexivity|]); [left; symmetry; exact H|right; split; [reflexivity|exact H]].
+    + intros [[_ [H|[_ H]]]|[H _]]; try discriminate H; [left; symmetry; exact H|right; exact H].
+  - (* Stop *) rewrite ids_nil. split; [intros []|]. intros [[H _]|[H _]]; discriminate H.
+Qed.
+
+Lemma KP_nil : KP [].
+Proof. intros n. cbn. split; [intros []|]. intros [t [[] _]]. Qed.
+
+Lemma KP_forest_of l : Forall (fun t => NoDup (ids_t t) -> KP [t]) l -> NoDup (ids l) -> KP l.
+Proof.
+  induction 1 as [|x l Hx _ IH]; intros ND; [exact KP_nil|].
+  destruct (NoDup_ids_cons _ _ ND) as [NDx [NDl _]].
+  apply KP_cons; [exact ND|apply Hx, NDx|apply IH, NDl].
+Qed.
+
+Lemma KP_tree : forall t, NoDup (ids_t t) -> KP [t].
+Proof.
+  induction t as [id i ch IH] using rt_ind'. intros ND. rewrite ids_t_unfold in ND. cbn [rid rch] in ND.
+  apply KP_node; [exact ND|]. apply KP_forest_of; [exact IH|]. inversion ND; assumption.
+Qed.
+
+Theorem F_ids_kept f : NoDup (ids f) -> forall n, In n (ids (F v f)) <-> kept v f n.
+Proof.
+  intros ND. apply KP_forest_of; [|exact ND]. apply Forall_forall. intros t _. apply KP_tree.
+Qed.
+
 End P.
